@@ -543,14 +543,19 @@ def classify(tree):
                     isinstance(c[1], tuple):
                 declared.add(c[1][1])
         bound = set()
+        twice = set()
         for p, x in _tpaths(tree):
             if isinstance(x, list) and len(x) == 3 and \
                     x[0] in ('forall', 'exists') and isinstance(x[1], list):
                 for sv in x[1]:
                     if isinstance(sv, list) and sv and \
                             isinstance(sv[0], tuple):
+                        if sv[0][1] in bound:
+                            twice.add(sv[0][1])
                         bound.add(sv[0][1])
-        if declared & bound:
+        # (the same mechanism: the bound variable is the pySMT symbol of
+        # that name, be it a declared symbol or an enclosing quantifier's)
+        if declared & bound or twice:
             return 'quantified-variable-captures-global'
     return '+'.join(sorted(s)[:8]) or 'core'
 
